@@ -71,7 +71,11 @@ impl Sync {
             rollback_start_live,
             rollback_end_live,
         };
+        #[cfg(feature = "verif")]
+        crate::verif::io::mark("pre_meta_done");
         Meta::write(&shared.io_pool.page_pool(), &shared.meta_fd, &new_meta)?;
+        #[cfg(feature = "verif")]
+        crate::verif::io::mark("meta_done");
         self.sync_seqn += 1;
 
         if let Some(PanicOnSyncMode::PostMeta) = self.panic_on_sync {
